@@ -290,6 +290,21 @@ def cli_flag(ctx, violations):
                     violations.append({"kind": "flag-before-subcommand", "command_line": ["lace"] + pre + [sub] + tail, "exit": rc_p,
                                        "feature_expected_on": on, "stderr": se_p.decode("utf-8", "replace")[-300:],
                                        "note": "the same flag after the sub-command switches the extension on"})
+    # the flag in BOTH positions of one command line (before and after the sub-command): the extension is on when either says so
+    for pre, post, on in ((["-f", "stack"], ["-f", "stack"], True), (["-f", "stack"], ["-f", ""], True), (["-f", ""], ["-f", "stack"], True),
+                          (["--features=stack"], ["--features", "stack"], True), (["-f", ""], ["-f", ""], False), (["-f", ","], ["-f", "stack,"], True)):
+        for sub, tail in (("check", ["s.asm"]), ("compile", ["s.asm", "both.lc3"]), ("run", ["s.asm", "--minimal"]), ("run", ["simg.lc3", "--minimal"]),
+                          ("run", ["raw.lc3", "--minimal"]), ("debug", ["s.asm", "--minimal", "--command", "continue"])):
+            if os.path.exists(os.path.join(d, "both.lc3")):
+                os.remove(os.path.join(d, "both.lc3"))
+            rc_p, so_p, se_p = clicommon.run_cli(exe, pre + [sub] + tail + post, d)
+            runs += 1
+            want = 0 if on else 1
+            if rc_p != want:
+                bad += 1
+                if bad <= 6:
+                    violations.append({"kind": "flag-in-both-positions", "command_line": ["lace"] + pre + [sub] + tail + post, "exit": rc_p, "expected_exit": want,
+                                       "feature_expected_on": on, "stderr": se_p.decode("utf-8", "replace")[-300:]})
     # the 0xD stop with a standard OUTPUT that rejects writes (a full device, a reader that has gone): still status 1 and the
     # note naming the flag on stderr
     import subprocess
@@ -318,7 +333,7 @@ def cli_flag(ctx, violations):
                                            "source": open(os.path.join(d, f.replace(".lc3", ".asm"))).read(), "exit": pr.returncode, "expected_exit": 1,
                                            "stderr": note[-300:]})
     return {"runs": runs, "spellings": len(spellings), "mismatches": bad,
-            "rule": "real binary: check / compile / run of an extension source, run of a source reaching a 0xD data word, and run (both `lace run FILE` and bare `lace FILE`) of the pre-assembled .lc3 / .obj IMAGES of both, for 17 ways of writing (or not writing, or miswriting) the feature list; the 0xD stop (status 1, note naming the flag) with a standard output that rejects writes (/dev/full, closed pipe)"}
+            "rule": "real binary: check / compile / run of an extension source, run of a source reaching a 0xD data word, and run (both `lace run FILE` and bare `lace FILE`) of the pre-assembled .lc3 / .obj IMAGES of both, for 17 ways of writing (or not writing, or miswriting) the feature list; the flag before the sub-command, and in both positions at once; the 0xD stop (status 1, note naming the flag) with a standard output that rejects writes (/dev/full, closed pipe)"}
 
 
 def replay(ctx, payload):
